@@ -55,6 +55,9 @@ MISSED = {
     "C13_f": "independence across blocks was tested on the complex gains only (uncorrelated even when a real factor is shared) -> Pearson correlation of log|h|^2 across adjacent blocks and items",
     "C15_f": "MinDistanceThresholder only with its default reference points -> symmetric custom reference points listed in other orders",
     "C20_f": "the multi-block layout had two blocks per row -> 2 rows x 67 blocks against the 134 blocks as a plain batch",
+    "C07_g": "the nonlinear channel's noise stage was only exercised in its default complex mode -> 'cartesian' and 'polar' modes with an identity nonlinearity as channel kinds of their own (deterministic and statistical units)",
+    "C12_g": "random bipolar inputs practically always have a -1 in every row -> one planted all-(+1) row per multi-row input and short rows ((50,2), (40,1)): the format is a property of the whole tensor",
+    "C17_g": "add/remove-step histories only ran on SequentialModel and ConfigurableModel -> the same histories on DeepJSCCModel and ChannelCodeModel (which inherit add_step / remove_step)",
 }
 for tag in sys.argv[1:]:
     pid = tag.split("_")[0]
